@@ -98,6 +98,21 @@ def size_scenarios(tier):
     ]
 
 
+def wrap_scenarios():
+    """C10: sessions numbered 0, 1, 2 stay open while the CHF's record counter comes up to 2^32 (the records it opened
+    meanwhile are not replayed: the counter is set), then further sessions of the same subscriber and consumer."""
+    out = []
+    for i, below in enumerate([1, 2, 3]):
+        steps = [dict(a="create", u="1", s="s%d" % k, c="a", chid=k, usage=[]) for k in (1, 2, 3)]
+        steps.append(dict(a="jump", u="1", s="", amt=below))
+        steps += [dict(a="create", u="1", s="s%d" % k, c="a", chid=k, usage=[]) for k in (4, 5, 6, 7)]
+        steps += [dict(a="update", u="1", s="s1", usage=[dict(rg="1", req=-1, conts=[dict(m="off", vol=1)])]),
+                  dict(a="update", u="1", s="s5", usage=[dict(rg="1", req=-1, conts=[dict(m="off", vol=2)])]),
+                  dict(a="release", u="1", s="s2", usage=[], trig=[]), dict(a="release", u="1", s="s6", usage=[], trig=[])]
+        out.append(dict(id="C10-wrap%d" % i, lrsn0=0, wb=False, ues=["1"], accts=[dict(u="1", rg="1", quota=50, cost="1")], steps=steps))
+    return out
+
+
 def tz_scenarios():
     """C02: one create/update/release per host time-zone offset (positive, negative, non-hour-aligned)."""
     out = []
@@ -241,6 +256,8 @@ def cfg(pid, tier):
                Modes=S("off"), Reqs=S(), Vols=S(1), TrigSets=S("none"), TopUps=S(), Recharges=False, AcctChoices=S((9, 1)),
                MaxSteps=4 if q else 5),
         ]
+    if pid == "C10":
+        extra = wrap_scenarios()
     return slices, extra
 
 
